@@ -7,6 +7,7 @@ CONSTANTS
   MaxRetries = 2
   DeadlineFails = TRUE
   AsImplemented = FALSE
+  OrphanMetaKept = FALSE
   CorruptIgnoresMeta = FALSE
   MayRelease = TRUE
 INVARIANTS Safe HolderOwnsLock LiveResidentKept
